@@ -196,5 +196,35 @@ def gotStream [DecidableEq PK] (verify : PK → Sig → Msg → Bool) (parse : M
   | [] => st
   | b :: bs => gotStream verify parse subs (gotBatch verify parse subs st b) bs
 
+/-! ### Key spellings
+
+The wire carries the key as a *string* (`claimed_key_vs`); `ed25519.verifying_key_from_string`
+decodes it.  `dec : Sp → KeyField PK` is that decoding (missing / no `v0-` / not base32 / wrong
+length / the verifying key).  The identity an announcement is filed under in this model is the
+decoded **verifying key**, not the spelling.  The code files it under the string it received
+(`key_vs = claimed_key_vs`); the two agree as long as a key has exactly one accepted spelling,
+which `base32.a2b`'s precondition (lower case, zero pad bits, no whitespace) ensures in the
+unchanged tree — the harness sends case / whitespace / pad-bit variants and checks that they are
+refused (seed C34-c accepted them and split one key into several identities). -/
+inductive SpelledWire (Sp Sig Msg : Type)
+  | garbage
+  | tuple (msg : Msg) (sig : SigField Sig) (sp : Sp)
+  deriving DecidableEq, Repr
+
+def decodeWire {Sp : Type} (dec : Sp → KeyField PK) : SpelledWire Sp Sig Msg → Wire PK Sig Msg
+  | .garbage => .garbage
+  | .tuple msg sig sp => .tuple msg sig (dec sp)
+
+/-- the same tuple with its key string re-spelled -/
+def respell {Sp : Type} (ren : Sp → Sp) : SpelledWire Sp Sig Msg → SpelledWire Sp Sig Msg
+  | .garbage => .garbage
+  | .tuple msg sig sp => .tuple msg sig (ren sp)
+
+/-- a stream of batches of tuples as received (keys still spelled) -/
+def gotStreamS {Sp : Type} [DecidableEq PK] (dec : Sp → KeyField PK) (verify : PK → Sig → Msg → Bool)
+    (parse : Msg → Option Ann) (subs : List Nat) (st : State PK)
+    (bs : List (List (SpelledWire Sp Sig Msg))) : State PK :=
+  gotStream verify parse subs st (bs.map (fun b => b.map (decodeWire dec)))
+
 end
 end Tahoe.Introducer
